@@ -342,4 +342,8 @@ def trace_calls(
         yield
     finally:
         sys.setprofile(old_trace)
-        logger.flush()
+        try:
+            logger.flush()
+        except Exception:
+            # like a failing log(), a failing flush() must not reach the traced program
+            logging.getLogger(__name__).exception("Failed flushing traces")
